@@ -36,7 +36,8 @@ Lemma example_all :
   wfb ex_def = true /\ proto_ok ex_def = true /\ seq_ok ex_def = true /\ wf_values ex_def ex_val ex_val 17 /\
   encode ex_def ex_in = Ok ex_bytes /\ encode ex_def ex_val = Ok ex_bytes /\ decode true ex_def ex_bytes = Ok (ex_val, 17%nat).
 Proof.
-  destruct ex_static as [H1 [H2 H3]]. destruct ex_encode as [H4 H5]. repeat split; try assumption; try apply ex_fits; apply ex_decode.
+  destruct ex_static as [H1 [H2 H3]]. destruct ex_encode as [H4 H5].
+  split; [exact H1|]. split; [exact H2|]. split; [exact H3|]. split; [exact ex_fits|]. split; [exact H4|]. split; [exact H5|exact ex_decode].
 Qed.
 
 (* REFUTED strengthening (recorded finding c16-varlen-buf-length-not-enforced): "a buffer whose length disagrees with the
@@ -53,7 +54,44 @@ Lemma varlen_buf_unchecked_refuted :
   ~ (forall fs e nm l p b n, wfb fs = true -> In (FBuf nm l p) fs -> get_pres p e = Ok true -> lookup nm e = Some (VBytes b) ->
        get_len l e 0 = Ok n -> length b <> n -> exists c, encode fs e = EncodeErr c).
 Proof.
-  split; [reflexivity|]. split; [reflexivity|]. split; [reflexivity|]. split; [reflexivity|].
+  split; [vm_compute; reflexivity|]. split; [vm_compute; reflexivity|]. split; [vm_compute; reflexivity|]. split; [vm_compute; reflexivity|].
   intros H. destruct (H vl_def vl_val 1%nat (LTab 0 [(0, 2%nat); (1, 3%nat)]) PAlways [1; 2] 3%nat) as [c Hc];
     try reflexivity; [right; left; reflexivity|cbn; lia|]. vm_compute in Hc. discriminate.
+Qed.
+
+(* ---------------------------------------------------------------- fixed values, any position *)
+Lemma bits_fit_fixed fs e cv : bits_fit fs e cv -> forall k bl c, In (BitF (Some k) bl (Some c)) fs -> In (k, VInt c) cv.
+Proof.
+  induction 1 as [e|bl0 fx r e cv Hr IH|k0 bl0 z r e cv Hl Hr IH|k0 bl0 c0 r e cv Hc Hr IH]; intros k bl c Hin.
+  - destruct Hin.
+  - destruct Hin as [E|Hin]; [discriminate|eauto].
+  - destruct Hin as [E|Hin]; [discriminate|right; eauto].
+  - destruct Hin as [E|Hin]; [injection E as -> -> ->; left; reflexivity|right; eauto].
+Qed.
+
+Lemma fits_fixed fs e e0 R cv u : fits fs e e0 R cv u ->
+  forall l p lsb bfs k bl c, In (FBits l p lsb bfs) fs -> get_pres p e = Ok true -> In (BitF (Some k) bl (Some c)) bfs ->
+  In (k, VInt c) cv.
+Proof.
+  induction 1 using fits_min with (P0 := fun _ _ _ _ => True); try (intros; exact I); intros l' p' lsb' bfs' k' bl' c' Hin Hp' Hbf.
+  - destruct Hin.
+  - destruct Hin as [->|Hin]; [cbn [fpres] in *; congruence|eauto].
+  - destruct Hin as [E|Hin]; [discriminate|right; eauto].
+  - destruct Hin as [E|Hin]; [discriminate|right; eauto].
+  - destruct Hin as [E|Hin]; [discriminate|eauto].
+  - destruct Hin as [E|Hin]; [|apply in_or_app; right; eauto].
+    injection E as -> -> -> ->. apply in_or_app. left. eapply bits_fit_fixed; [eassumption|].
+    destruct lsb'; cbn [bits_order]; [apply -> in_rev|]; exact Hbf.
+  - destruct Hin as [E|Hin]; [discriminate|right; eauto].
+  - destruct Hin as [E|Hin]; [discriminate|right; eauto].
+Qed.
+
+(* whenever a well-formed definition decodes, every present fixed-value bit-field of its top level - in whatever
+   position - holds its fixed value: a mismatch can never be accepted *)
+Lemma fixed_values_hold chk fs data v n l p lsb bfs k bl c :
+  wfb fs = true -> bytes_ok data -> decode chk fs data = Ok (v, n) ->
+  In (FBits l p lsb bfs) fs -> get_pres p v = Ok true -> In (BitF (Some k) bl (Some c)) bfs -> lookup k v = Some (VInt c).
+Proof.
+  intros Hwf Hb Hdec Hin Hp Hbf. destruct (dec_enc_top chk fs data v n Hwf Hb Hdec) as [_ [Hfit [Hnd _]]].
+  apply lookup_in_nodup; [exact Hnd|]. exact (fits_fixed _ _ _ _ _ _ Hfit _ _ _ _ _ _ _ Hin Hp Hbf).
 Qed.
